@@ -28,3 +28,67 @@ func H_C14_arbitrary() {
 	ToObject(buf, tm)
 	vStepLimit(0)
 }
+
+func zValidMessage(which int) ([]byte, map[string]reflect.Type) {
+	tm := vZooTypeMap()
+	_, nm := vExtractAll(&ZOuter{P: &ZInner{}}, &ZLists{})
+	var v interface{}
+	switch which {
+	case 0:
+		v = &ZOuter{A: 300, In: ZInner{N: 5, S: "in"}, P: &ZInner{N: -70000, S: "p"}, Z: 1 << 40}
+	case 1:
+		in := &ZInner{N: 1, S: "x"}
+		v = &ZLists{Ss: []string{"a", "bc"}, Is: []int32{1, 2}, Ps: []*ZInner{in, in}}
+	case 2:
+		v = []interface{}{int32(1), "two", 3.5, []byte{4}, nil, true}
+	case 3:
+		v = map[string]int32{"k": 7}
+	case 4:
+		v = "a string with é"
+	default:
+		v = []int32{1, 2, 3}
+	}
+	bs, err := ToBytes(v, nm)
+	vAssume(err == nil)
+	return bs, tm
+}
+
+// H_C14_mutated: a valid message with one octet replaced by an arbitrary one at every position, and every
+// prefix of it: the decoder returns; steps and allocations stay bounded by the input size.
+func H_C14_mutated() {
+	msg, tm := zValidMessage(vChoice("msg", 6))
+	in := make([]byte, len(msg))
+	copy(in, msg)
+	if vChoice("damage", 2) == 0 {
+		pos := vChoice("pos", len(msg))
+		in[pos] = vUint8("octet")
+	} else {
+		in = in[:vChoice("cut", len(msg))]
+	}
+	vAllocBound(65536 + len(in))
+	vStepLimit(100000 + 20000*len(in))
+	ToObject(in, tm)
+	vStepLimit(0)
+}
+
+// H_C14_entrypoints: the streaming entry points on hostile input (two reads in a row, serializer).
+func H_C14_entrypoints() {
+	n := vChoice("n", 3)
+	buf := vBytes("in", n)
+	tm := vZooTypeMap()
+	vAllocBound(65536 + n)
+	vStepLimit(100000 + 20000*n)
+	switch vChoice("entry", 3) {
+	case 0:
+		d := NewDecoder(&vCountingReader{b: buf}, tm)
+		d.ReadObject()
+		d.ReadObject()
+	case 1:
+		s := NewSerializer(tm, nil)
+		s.ReadFrom(&vCountingReader{b: buf})
+		s.Read()
+	case 2:
+		NewDecoder(nil, tm).ReadFrom(&vCountingReader{b: buf})
+	}
+	vStepLimit(0)
+}
